@@ -26,7 +26,14 @@ def repo_path():
 
 def child_env(scratch, extra=None, hashseed="0"):
     env = dict(os.environ)
-    env.pop("PYTHONDONTWRITEBYTECODE", None)
+    # variables of the caller's shell that change what Python/hy do must not reach the workers
+    for k in list(env):
+        if k in ("PYTHONDONTWRITEBYTECODE", "PYTHONOPTIMIZE", "PYTHONWARNINGS", "PYTHONSTARTUP",
+                 "PYTHONINSPECT", "PYTHONDEBUG", "PYTHONVERBOSE", "PYTHONDEVMODE", "PYTHONUTF8",
+                 "PYTHONIOENCODING", "PYTHONHOME", "PYTHONSAFEPATH", "PYTHONNODEBUGRANGES",
+                 "PYTHONINTMAXSTRDIGITS", "PYTHONBREAKPOINT", "PYTHONPROFILEIMPORTTIME",
+                 "HYSTARTUP") or k.startswith("HY_"):
+            env.pop(k, None)
     env["PYTHONPYCACHEPREFIX"] = os.path.join(scratch, "pycache")
     env["PYTHONPATH"] = os.pathsep.join(
         [repo_path(), VERIF, os.path.join(VERIF, ".deps")])
@@ -196,7 +203,7 @@ def _run(pid, args, seed, scratch, t0):
                              stdout=subprocess.DEVNULL, stderr=errf)
         procs.append((s, p, out, errf))
 
-    watchdog = budget * 3 + 120
+    watchdog = budget * 3 + 120 + float(getattr(mod, "CASE_TIMEOUT", 20))
     deadline = time.time() + watchdog
     worker_fail = []
     for s, p, out, errf in procs:
@@ -268,10 +275,11 @@ def _run(pid, args, seed, scratch, t0):
         key = rec["result"].get("finding")
         per_key[key] = per_key.get(key, 0) + 1
         if per_key[key] > (3 if key in known else 5):
-            if key in known:
+            if key in known and key in known_seen:
                 known_seen[key]["count"] += 1
             continue
-        res = replay_in_fresh_process(pid, rec["case"], scratch)
+        res = replay_in_fresh_process(pid, rec["case"], scratch,
+                                      timeout=max(300, 2 * float(getattr(mod, "REPLAY_TIMEOUT", getattr(mod, "CASE_TIMEOUT", 20))) + 60))
         if res.get("ok") is False:
             key = res.get("finding")
             if key in known:
@@ -279,10 +287,8 @@ def _run(pid, args, seed, scratch, t0):
                 ks["count"] += 1
             else:
                 confirmed.append((rec["case"], res))
-        elif res.get("ok") is True:
-            flaky.append(rec["case"])
         else:
-            flaky.append(rec["case"])
+            flaky.append((rec["case"], {"flaky": True, "in_worker": rec.get("result"), "alone": res}))
 
     floor = mod.FLOOR[tier] if isinstance(mod.FLOOR, dict) else mod.FLOOR
     reasons = []
@@ -306,10 +312,10 @@ def _run(pid, args, seed, scratch, t0):
         if r:
             reasons.append(r)
 
-    for case in flaky[:5]:
+    for case, info in flaky[:5]:
         # kept for debugging the machinery: a violation seen in a worker that did not
         # reproduce alone in a fresh process (the run is inconclusive, never a violation)
-        write_replay(pid, case, {"flaky": True}, tier, seed)
+        write_replay(pid, case, info, tier, seed)
     replay_paths = []
     for case, res in confirmed[:10]:
         replay_paths.append(write_replay(pid, case, res, tier, seed))
